@@ -106,7 +106,19 @@ def run_prop(chk, replay, prop):
         o0 = {"hdr": True, "shape": True, "data": False, "coords": False}
         scenarios = [s for s in scenarios if s["opts"] == o0]
     cap = {"C03": 1500, "C04": 3000, "C20": 3000}[prop] if chk.tier == "quick" else 60000
-    chosen = util.select(scenarios, cap, chk.rng)
+    # damaged states that a validator lacking ONE of taste's rules (first-header comparison, offset sorting,
+    # end-of-file rule) would accept are always replayed: they are where a weakened validator shows
+    fragile, counts = [], {}
+    if prop in ("C04", "C20"):
+        for rule in ("first-header", "offset-sort", "eof-rule"):
+            grp = [s for s in scenarios if rule in (s.get("fragile") or [])]
+            counts[rule] = len(grp)
+            chk.rng.shuffle(grp)
+            fragile += grp[:cap // 6]
+    ids = set(id(s) for s in fragile)
+    fragile = [s for i, s in enumerate(fragile) if id(s) not in set(id(x) for x in fragile[:i])]
+    chosen = fragile + util.select([s for s in scenarios if id(s) not in ids], cap - len(fragile), chk.rng)
+    chk.extra["fragile_states"] = {"by_rule_in_model": counts, "replayed": len(fragile)}
     chk.exhaustive = len(chosen) == len(scenarios)
     styles = [{}, {"offset_text": "plus"}, {"offset_text": "zero"}, {"fod_blanks": True}]
     for i, sc in enumerate(chosen):
